@@ -18,6 +18,16 @@ Purely syntactic extraction with Python's `ast` (trusted, stated in the trusted 
                   store `self.a = …` (any of the store forms above, first attribute of the chain)
                   in `__init__` of that very class resp. in `_reset_state`.
   transFilesScanned  the files parsed.
+ extras (not asked for by the plan, needed to state what is true):
+  transLocalCtor  (file, qualified function, line, local name, class): assignments `x = C(…)` of a plain local
+                  name from a call of a class defined in the scanned files (the written objects of the six
+                  non-`self` stores are such fresh translators).
+  transResetCalls (file, qualified function, line): every call `<anything>._reset_state(…)`.
+  transSelfMutAttrs  owner ↦ sorted first attributes a of `self.a…` that are stored to (any store form)
+                  or are the receiver of a mutating method call, anywhere in the owner (nested functions
+                  included) EXCEPT inside its `__init__` and `_reset_state`, i.e. the attributes a
+                  translation run can change; owner = enclosing top-level class, or "<file>:<module>" for module-level
+                  functions (the `append_to` decorators).
 
 Qualified function = dotted path of enclosing classes/functions (`KotlinTranslator.visit_block`,
 `append_to.inner`, `KotlinTranslator.visit_lambda.inside_block_unit_function`); "<module>" at module level.
@@ -65,9 +75,22 @@ class Scan(ast.NodeVisitor):
         self.mutcalls = []       # (file, qual, line, col, receiver chain, method)
         self.cls_attrs = {}      # class -> {"__init__": set, "_reset_state": set, "has_reset": bool}
         self.cls_stack = []
+        self.local_ctor = []     # (file, qual, line, col, name, class)
+        self.reset_calls = []    # (file, qual, line, col)
+        self.self_mut = {}       # owner -> set of attrs
+        self.class_names = set()
 
     def qual(self):
         return ".".join(self.scope) if self.scope else "<module>"
+
+    def owner(self):
+        return self.cls_stack[0][0] if self.cls_stack else self.fname + ":<module>"
+
+    def in_init_or_reset(self):
+        if not self.cls_stack:
+            return False
+        depth = self.cls_stack[-1][1]
+        return len(self.scope) > depth and self.scope[depth] in ("__init__", "_reset_state")
 
     # ---- scopes
     def visit_ClassDef(self, node):
@@ -133,6 +156,8 @@ class Scan(ast.NodeVisitor):
                     parts.pop()
             self.writes.append((self.fname, self.qual(), lineno, tg.col_offset, root, chain_text(parts)))
             self._class_attr(root, parts)
+            if root == "self" and parts and not self.in_init_or_reset():
+                self.self_mut.setdefault(self.owner(), set()).add(parts[0])
         # plain Name / subscript of a Name: not an attribute write
 
     @staticmethod
@@ -153,6 +178,11 @@ class Scan(ast.NodeVisitor):
 
     def visit_Assign(self, node):
         self.visit(node.value)
+        v = node.value
+        if isinstance(v, ast.Call) and isinstance(v.func, ast.Name) and v.func.id in self.class_names:
+            for tg in node.targets:
+                if isinstance(tg, ast.Name):
+                    self.local_ctor.append((self.fname, self.qual(), node.lineno, tg.col_offset, tg.id, v.func.id))
         for tg in node.targets:
             self.store(tg, node.lineno)
             self.visit(tg)
@@ -198,8 +228,12 @@ class Scan(ast.NodeVisitor):
     # ---- mutating calls
     def visit_Call(self, node):
         f = node.func
+        if isinstance(f, ast.Attribute) and f.attr == "_reset_state":
+            self.reset_calls.append((self.fname, self.qual(), node.lineno, node.col_offset))
         if isinstance(f, ast.Attribute) and f.attr in MUTATORS:
             root, parts = chain(f.value)
+            if root == "self" and parts and not self.in_init_or_reset():
+                self.self_mut.setdefault(self.owner(), set()).add(parts[0])
             if root not in ("self", "?") and any(root in ps for ps in self.params):
                 self.mutcalls.append((self.fname, self.qual(), node.lineno, node.col_offset,
                                       chain_text([root] + parts) if parts else root, f.attr))
@@ -209,11 +243,16 @@ class Scan(ast.NodeVisitor):
 def collect():
     d = os.path.join(common.REPO, "src", "translators")
     files = sorted(f for f in os.listdir(d) if f.endswith(".py"))
-    writes, mut, init, reset = [], [], [], []
+    writes, mut, init, reset, lctor, rcalls, selfmut = [], [], [], [], [], [], []
+    trees = {f: ast.parse(open(os.path.join(d, f), encoding="utf-8").read()) for f in files}
+    class_names = {n.name for t in trees.values() for n in ast.walk(t) if isinstance(n, ast.ClassDef)}
     for f in files:
-        src = open(os.path.join(d, f), encoding="utf-8").read()
         sc = Scan(f)
-        sc.visit(ast.parse(src))
+        sc.class_names = class_names
+        sc.visit(trees[f])
+        lctor += sc.local_ctor
+        rcalls += sc.reset_calls
+        selfmut += [(o, sorted(a)) for o, a in sc.self_mut.items()]
         writes += sc.writes
         mut += sc.mutcalls
         for cls in sorted(sc.cls_attrs):
@@ -227,7 +266,11 @@ def collect():
     mut = [(a, b, c, e, g) for (a, b, c, _, e, g) in mut]
     init.sort()
     reset.sort()
-    return {"files": files, "writes": writes, "mutcalls": mut, "init": init, "reset": reset}
+    selfmut.sort()
+    lctor = [(a, b, c, e, g) for (a, b, c, _, e, g) in sorted(lctor, key=lambda w: (w[0], w[2], w[3]))]
+    rcalls = [(a, b, c) for (a, b, c, _) in sorted(rcalls, key=lambda w: (w[0], w[2], w[3]))]
+    return {"files": files, "writes": writes, "mutcalls": mut, "init": init, "reset": reset,
+            "local_ctor": lctor, "reset_calls": rcalls, "self_mut": selfmut}
 
 
 def lean_str(s):
@@ -267,6 +310,17 @@ def render(r):
                   r["init"])
     out += _attrs("transResetAttrs",
                   "class ↦ attributes assigned on `self` in `_reset_state`", r["reset"])
+    out += _table("transLocalCtor",
+                  "(file, qualified function, line, local name, class): `name = Class(…)` with Class defined in"
+                  " src/translators", r["local_ctor"])
+    out += ["/-- (file, qualified function, line) of every call of `_reset_state` -/",
+            "def transResetCalls : List (String × String × Nat) := ["]
+    out += ["  (%s, %s, %d)%s" % (lean_str(a), lean_str(b), c, "," if i + 1 < len(r["reset_calls"]) else "")
+            for i, (a, b, c) in enumerate(r["reset_calls"])]
+    out += ["]", ""]
+    out += _attrs("transSelfMutAttrs",
+                  "owner (class, or `<file>:<module>`) ↦ attributes of `self` stored to or mutated through a"
+                  " container method anywhere in the owner outside `__init__`/`_reset_state`", r["self_mut"])
     out += ["/-- files parsed -/",
             "def transFilesScanned : List String := [%s]" % ", ".join(lean_str(f) for f in r["files"]),
             "", "end Heph.Generated", ""]
@@ -290,6 +344,10 @@ if __name__ == "__main__":
     print("files:", r["files"])
     print("writes:", len(r["writes"]), "roots:", sorted({w[3] for w in r["writes"]}))
     print("mutcalls:", r["mutcalls"])
+    print("local ctor:", r["local_ctor"])
+    print("reset calls:", r["reset_calls"])
+    for o, a in r["self_mut"]:
+        print("self-mutated", o, a)
     for (c, a), (_, b) in zip(r["init"], r["reset"]):
         print(c, "\n  init :", a, "\n  reset:", b, "\n  init-reset:", sorted(set(a) - set(b)),
               "\n  reset-init:", sorted(set(b) - set(a)))
